@@ -21,6 +21,7 @@ import math
 import multiprocessing as mp
 from fractions import Fraction as Fr
 from base import *  # noqa
+import numpy as np
 import geodepy.angles as A
 from C08 import meanings, kind_of, Acc, TOL, OBJ, show
 
@@ -72,9 +73,13 @@ def gen_angle(rng):
         x = rng.choice([0.0, 360.0, 180.0, 90.0, 0.5, 1.0, 1 / 3600, 59 / 60 + 59 / 3600])
     elif r < 0.65:
         x = rng.random() * rng.choice([1, 1e-3, 1e-6])
-    elif r < 0.75:   # within 1e-9" of a minute / degree boundary
+    elif r < 0.70:   # within 1e-9" of a minute / degree boundary
         d, m = rng.randrange(360), rng.choice([0, rng.randrange(60)])
         x = float((Fr(d * 3600 + m * 60) + Fr(rng.choice([-6, -5, -4, -1, 1, 4, 5, 6]), 10 ** 10)) / 3600)
+    elif r < 0.78:   # 1e-9.5" ... 1e-4" either side of a minute / degree boundary (a carry that fires too early shows here)
+        d, m = rng.randrange(360), rng.choice([0, 0, rng.randrange(60)])
+        off = Fr(int(10 ** rng.uniform(0.5, 6)), 10 ** 10) * rng.choice([-1, -1, 1])
+        x = float((Fr(d * 3600 + m * 60) + off) / 3600)
     else:
         x = rng.uniform(0, 360)
     return x if rng.random() < 0.6 else -x
@@ -207,13 +212,21 @@ def ops_worker(job):
             check_op(acc, f'op:neg:{c}', lambda: -a, -da, c, inp)
             check_op(acc, f'op:abs:{c}', lambda: abs(a), abs(da), c, inp)
             kk = rng.choice(KS) if rng.random() < 0.7 else rng.uniform(-2, 2)
+            if rng.random() < 0.25:
+                # the number as a numpy scalar (an element of an array of factors): numpy.float64 is a float, numpy.int64 an integer
+                kk = np.int64(kk) if float(kk).is_integer() and rng.random() < 0.5 else np.float64(kk)
+                inp = inp + f' [k as {type(kk).__name__}]'
             if abs(da * kk) < 720:
                 check_op(acc, f'op:mul:{c}', lambda: a * kk, da * kk, c, inp + f' * {kk!r}')
-                check_op(acc, f'op:rmul:{c}', lambda: kk * a, kk * da, c, f'{kk!r} * ' + inp)
+                # k * a with k a numpy scalar is numpy's own operation (its left operand is the numpy number): not asked of the library
+                kp = kk.item() if isinstance(kk, np.generic) else kk
+                check_op(acc, f'op:rmul:{c}', lambda: kp * a, kp * da, c, f'{kp!r} * ' + inp)
             if kk != 0 and abs(da / kk) < 720:
                 check_op(acc, f'op:div:{c}', lambda: a / kk, da / kk, c, inp + f' / {kk!r}')
             if c in ('DMS', 'DDM'):
                 km = rng.choice(KMOD)
+                if rng.random() < 0.25:
+                    km = np.float64(km)
                 check_op(acc, f'op:mod:{c}', lambda: a % km, da % km, c, inp + f' % {km!r}')
             if c != 'HP':
                 n_ = rng.choice([None, 0, 1, 2, 3, 4, 5, 6, 7, 8, 9])
